@@ -14,6 +14,7 @@ for p in "$@"; do
   out=$(VERIF_ONLY=${VERIF_ONLY:-1} VERIF_REPO=$wt /verif/check "$id" "$tier" 2>&1); rc=$?
   sig=$(echo "$out" | grep "signature:" | head -3 | tr '\n' ' ')
   inc=$(echo "$out" | grep "INCONCLUSIVE" | head -2 | tr '\n' ' ')
-  echo "$id $n rc=$rc $(( $(date +%s) - s ))s $sig $inc"
+  hits=$(echo "$out" | grep -o "known_hits={[^}]*}" | head -1 | cut -c1-400)
+  echo "$id $n rc=$rc $(( $(date +%s) - s ))s $sig $inc $hits"
 done
 git -C "$wt" checkout -q .
